@@ -187,7 +187,14 @@ Proof.
   destruct (m =? 2).
   { unfold call_delete. cbn [d_delete_interchain cfg_fixed]. intro H. inversion H; subst; clear H. simpl. fiveway; auto. }
   destruct (m =? 3).
-  { apply Hsame. reflexivity. }
+  { unfold call_register. destruct (svc_lookup w a) as [s|].
+    - destruct (is_local s).
+      + destruct (i_rec (s_ic st) a) eqn:E.
+        * intro H. inversion H; subst; clear H. simpl. fiveway; auto.
+        * intro H. inversion H; subst; clear H. simpl. fiveway; auto.
+          intro I. apply binv_put_zero; assumption.
+      + intro H. inversion H; subst; clear H. simpl. fiveway; auto.
+    - destruct (w_audit w); intro H; inversion H; subst; clear H; simpl; fiveway; auto. }
   destruct (m =? 4).
   { apply Hsame. destruct (call_get_ibtp _ _ _); reflexivity. }
   destruct (m =? 5).
